@@ -368,6 +368,63 @@ fn whole<T: Elem>(rep: &mut Report, len: usize) {
     }
 }
 
+/// Zero-sized element types allow slices longer than isize::MAX elements (up to usize::MAX):
+/// every index computation must still agree with std there. Only lengths are comparable for ZSTs.
+macro_rules! huge_zst {
+    ($rep:ident, $T:ty, $val:expr) => {{
+        ZST.with(|z| z.set(true));
+        let mut big: [$T; usize::MAX] = [$val; usize::MAX];
+        let im = isize::MAX as usize;
+        for &len in &[im - 1, im, im + 1, usize::MAX - 1, usize::MAX] {
+            let mut idx = vec![0usize, 1, 2, 3, im - 1, im, im + 1, usize::MAX - 1, usize::MAX, len - 1, len, len / 2];
+            if len < usize::MAX { idx.push(len + 1) }
+            idx.sort(); idx.dedup();
+            let ln = |o: Option<&[$T]>| o.map(|x| x.len());
+            for &i in &idx {
+                $rep.states += 1;
+                let s: &[$T] = &big[..len];
+                let mut c = Ctx { rep: $rep, ty: <$T as Elem>::NAME, len, a: i, b: usize::MAX - 9 };
+                c.cmp("get(huge zst)", s.get(i).is_some(), catch(|| ks::get(s, i).is_some()));
+                c.cmp("get_from(huge zst)", ln(s.get(i..)), catch(|| ln(ks::get_from(s, i))));
+                c.cmp("get_up_to(huge zst)", ln(s.get(..i)), catch(|| ln(ks::get_up_to(s, i))));
+                c.cmp("slice_from(huge zst)", len.saturating_sub(i), catch(|| ks::slice_from(s, i).len()));
+                c.cmp("slice_up_to(huge zst)", i.min(len), catch(|| ks::slice_up_to(s, i).len()));
+                c.cmp("split_at(huge zst)", (i.min(len), len.saturating_sub(i)), catch(|| { let (l, r) = ks::split_at(s, i); (l.len(), r.len()) }));
+                let m: &mut [$T] = &mut big[..len];
+                c.cmp("get_mut(huge zst)", i < len, catch(|| ks::get_mut(&mut *m, i).is_some()));
+                c.cmp("get_from_mut(huge zst)", if i <= len { Some(len - i) } else { None }, catch(|| ks::get_from_mut(&mut *m, i).map(|x| x.len())));
+                c.cmp("get_up_to_mut(huge zst)", if i <= len { Some(i) } else { None }, catch(|| ks::get_up_to_mut(&mut *m, i).map(|x| x.len())));
+                c.cmp("slice_from_mut(huge zst)", len.saturating_sub(i), catch(|| ks::slice_from_mut(&mut *m, i).len()));
+                c.cmp("slice_up_to_mut(huge zst)", i.min(len), catch(|| ks::slice_up_to_mut(&mut *m, i).len()));
+                c.cmp("split_at_mut(huge zst)", (i.min(len), len.saturating_sub(i)), catch(|| { let (l, r) = ks::split_at_mut(&mut *m, i); (l.len(), r.len()) }));
+                for &j in &idx {
+                    $rep.states += 1;
+                    let s: &[$T] = &big[..len];
+                    let mut c = Ctx { rep: $rep, ty: <$T as Elem>::NAME, len, a: i, b: j };
+                    c.b = j;
+                    c.cmp("get_range(huge zst)", ln(s.get(i..j)), catch(|| ln(ks::get_range(s, i, j))));
+                    let e = j.min(len);
+                    c.cmp("slice_range(huge zst)", e - i.min(e), catch(|| ks::slice_range(s, i, j).len()));
+                    let m: &mut [$T] = &mut big[..len];
+                    c.cmp("get_range_mut(huge zst)", if i <= j && j <= len { Some(j - i) } else { None }, catch(|| ks::get_range_mut(&mut *m, i, j).map(|x| x.len())));
+                    c.cmp("slice_range_mut(huge zst)", e - i.min(e), catch(|| ks::slice_range_mut(&mut *m, i, j).len()));
+                }
+            }
+            let s: &[$T] = &big[..len];
+            let mut c = Ctx { rep: $rep, ty: <$T as Elem>::NAME, len, a: 0, b: usize::MAX - 9 };
+            macro_rules! ch { ($N:literal) => {{
+                c.a = $N;
+                let (a, r) = s.as_chunks::<$N>();
+                c.cmp(concat!("as_chunks::<", $N, ">(huge zst)"), (a.len(), r.len()), catch(|| { let (a, r) = ks::as_chunks::<$T, $N>(s); (a.len(), r.len()) }));
+                let (r, a) = s.as_rchunks::<$N>();
+                c.cmp(concat!("as_rchunks::<", $N, ">(huge zst)"), (a.len(), r.len()), catch(|| { let (r, a) = ks::as_rchunks::<$T, $N>(s); (a.len(), r.len()) }));
+            }}}
+            ch!(1); ch!(2); ch!(3); ch!(7); ch!(4096);
+            c.rep.nontrivial(|| format!("{} slice of length {} (> isize::MAX elements)", <$T as Elem>::NAME, len));
+        }
+    }};
+}
+
 fn run_type<T: Elem>(rep: &mut Report, maxlen: usize) {
     ZST.with(|z| z.set(std::mem::size_of::<T>() == 0));
     for len in 0..=maxlen {
@@ -396,7 +453,7 @@ fn dispatch(rep: &mut Report, ty: &str, f: &dyn Fn(&mut Report, &str)) {
 }
 
 pub fn run(tier: Tier, rep: &mut Report) -> (String, String) {
-    let maxlen = tier.pick(8, 13, 3);
+    let maxlen = tier.pick(12, 24, 3);
     let r = par_each(TYPES, n_threads(tier), |ty, r| {
         dispatch(r, ty, &|r, ty| match ty {
             "u8" => run_type::<u8>(r, maxlen),
@@ -409,10 +466,14 @@ pub fn run(tier: Tier, rep: &mut Report) -> (String, String) {
         })
     });
     rep.merge(r);
+    if tier != Tier::Miri {
+        huge_zst!(rep, (), ());
+        huge_zst!(rep, Zst32, Zst32);
+    }
     rep.traces = rep.transitions;
     (
         "every (element type, length, index) and (element type, length, start, end) is one state; every konst::slice indexing/splitting function called on it is one transition, compared with std by address and length (and, for _mut, by writing a sentinel through the result); non-trivial = index within len+1 of the length or >= isize::MAX (the values that straddle the guards)".into(),
-        format!("types={TYPES:?} lengths=0..={maxlen} indices=index_set(len)=0..=len+2 U {{isize::MAX-1..=isize::MAX+1, usize::MAX-1, usize::MAX}} all pairs; N in 0..=6 for try_into_array, 1..=5,7 (and 0 => panic) for as_chunks/as_rchunks"),
+        format!("types={TYPES:?} lengths=0..={maxlen} indices=index_set(len)=0..=len+2 U {{isize::MAX-1..=isize::MAX+1, usize::MAX-1, usize::MAX}} all pairs; N in 0..=6 for try_into_array, 1..=5,7 (and 0 => panic) for as_chunks/as_rchunks; plus zero-sized element slices of length isize::MAX-1, isize::MAX, isize::MAX+1, usize::MAX-1, usize::MAX (lengths only)"),
     )
 }
 
@@ -421,7 +482,14 @@ pub fn replay(case: &str, rep: &mut Report) {
     let (ty, len, a, b): (&str, usize, usize, usize) = (p[0], p[1].parse().unwrap(), p[2].parse().unwrap(), p[3].parse().unwrap());
     fn go<T: Elem>(rep: &mut Report, len: usize, a: usize, b: usize) {
         ZST.with(|z| z.set(std::mem::size_of::<T>() == 0));
-        if b == usize::MAX - 7 || b == usize::MAX - 8 {
+        if len >= isize::MAX as usize - 1 {
+            // huge ZST family: re-run it whole (cheap)
+            if std::mem::size_of::<T>() == 0 && T::NAME == "unit" {
+                huge_zst!(rep, (), ());
+            } else {
+                huge_zst!(rep, Zst32, Zst32);
+            }
+        } else if b == usize::MAX - 7 || b == usize::MAX - 8 {
             whole::<T>(rep, len)
         } else if b == usize::MAX {
             one_index::<T>(rep, len, a);
